@@ -612,7 +612,7 @@ func (cl *Client) WritePacket(pk packets.Packet) error {
 	n, err := func() (int64, error) {
 		cl.Lock()
 		defer cl.Unlock()
-		if len(cl.State.outbound) == 0 {
+		if len(cl.State.outbound) == 0 || pk.FixedHeader.Type == packets.Disconnect { // a DISCONNECT is followed by Close: never leave it in the buffer
 			if cl.Net.outbuf == nil {
 				return buf.WriteTo(cl.Net.Conn)
 			}
